@@ -581,7 +581,7 @@ func handleInputStream(s *Session, handler Handler) (err error) {
 	// If this is a stanza, normalize the "from" attribute.
 	if stanza.Is(start.Name, s.in.XMLNS) {
 		for i, attr := range start.Attr {
-			if attr.Name.Local == "from" /*&& attr.Name.Space == start.Name.Space*/ {
+			if attr.Name.Local == "from" && attr.Name.Space == "" {
 				local := s.LocalAddr().Bare().String()
 				// Try a direct comparison first to avoid expensive JID parsing.
 				// TODO: really we should be parsing the JID here in case the server
